@@ -95,3 +95,27 @@ Theorem new_recipient_unicode_irrelevant mode a : new_recipient_u ulower go_pars
 Proof. unfold new_recipient_u, new_recipient. rewrite extract_mailbox_unicode_irrelevant. reflexivity. Qed.
 
 End Unicode.
+
+(** * Non-vacuity with the modelled literal parser itself (not yes_ip / no_ip) *)
+(* "u@[IPv6:2001:DB8::A]" is accepted in every mode; names u, u@[IPv6:2001:db8::a], [IPv6:2001:db8::a] *)
+Definition go_sample_v6 : str := [117;64;91;73;80;118;54;58;50;48;48;49;58;68;66;56;58;58;65;93].
+Example go_sample_v6_names :
+  map (fun m => option_map r_mailbox (newrcpt_go m go_sample_v6)) [Local; Full; Domain] =
+  [Some [117]; Some [117;64;91;73;80;118;54;58;50;48;48;49;58;100;98;56;58;58;97;93]; Some [91;73;80;118;54;58;50;48;48;49;58;100;98;56;58;58;97;93]].
+Proof. vm_compute. reflexivity. Qed.
+(* "U+x@[1.2.3.4]" accepted (names u, u@[1.2.3.4], [1.2.3.4]); "u@[1.2.3]", "u@[ipv6:2001:db8::a]" and "u@[01.2.3.4]" are refused *)
+Example go_sample_v4_names :
+  map (fun m => option_map r_mailbox (newrcpt_go m [85;43;120;64;91;49;46;50;46;51;46;52;93])) [Local; Full; Domain] =
+  [Some [117]; Some [117;64;91;49;46;50;46;51;46;52;93]; Some [91;49;46;50;46;51;46;52;93]] /\
+  newrcpt_go Full [117;64;91;49;46;50;46;51;93] = None /\
+  newrcpt_go Full [117;64;91;105;112;118;54;58;50;48;48;49;58;100;98;56;58;58;97;93] = None /\
+  newrcpt_go Full [117;64;91;48;49;46;50;46;51;46;52;93] = None.
+Proof. vm_compute. repeat split; reflexivity. Qed.
+
+(** The '+extension' theorems say "both accepted => same name"; they do not say that the +ext
+    variant of an accepted address is accepted. It need not be, at the length limits: a local
+    part of 128 bytes is accepted, the same local part with "+x" appended is refused (the at
+    sign must sit at an index <= 128); likewise at the 320 limit of the whole address. *)
+Theorem plus_variant_need_not_be_accepted :
+  exists l e d, newrcpt_go Local (l ++ 64 :: d) <> None /\ newrcpt_go Local (l ++ 43 :: e ++ 64 :: d) = None.
+Proof. exists (repeat 97 128), [120], [100]. split; [vm_compute; discriminate | vm_compute; reflexivity]. Qed.
